@@ -1,7 +1,7 @@
 (* C18 — GraphQL names map lawfully to Python names.
    Property theorems only; proofs live in Proofs/NamesP.v. *)
 From Coq Require Import List String Ascii Bool.
-From AC Require Import Base.Strs Model.Names Model.Scopes Proofs.NamesP Proofs.ScopesP.
+From AC Require Import Base.Strs Model.Names Model.Scopes Proofs.NamesP Proofs.ScopesP Proofs.PascalP.
 Import ListNotations.
 Local Open Scope string_scope.
 
@@ -153,4 +153,57 @@ Example C18_scope_regression :
     = ["foo_bar_"; "foo_bar"; "class__"; "class_"; "copy_"] /\
   map l2s (input_field_names false (map s2l ["_a"; "a"; "a_"]))
     = ["a__"; "a"; "a_"].
+Proof. vm_compute. repeat split. Qed.
+
+(* ==== operations of one client: the result class of an operation is str_to_pascal_case(name)
+        (package.py add_operation), its module and method are process_name(name, snake) ==== *)
+Definition op_flags18 : pflags := {| f_snake := true; f_trim := false; f_reserved := false |}.
+
+(* full statement: two operations that get past the duplicate-module refusal never share a class name *)
+Definition C18_operation_classes_full : Prop := forall a b, gql_name a = true -> gql_name b = true ->
+  process_name op_flags18 a <> process_name op_flags18 b -> pascal a <> pascal b.
+
+(* every letter and digit of the operation name is kept in the class name, in order (case-folded) *)
+Theorem C18_operation_class_alnum_preserved : forall n,
+  map to_lower (filter is_alnum (pascal n)) = map to_lower (filter is_alnum n).
+Proof. exact pascal_alnum_preserved. Qed.
+Print Assumptions C18_operation_class_alnum_preserved.
+
+Theorem C18_operation_class_idempotent : forall n, pascal (pascal n) = pascal n.
+Proof. exact pascal_idempotent. Qed.
+Print Assumptions C18_operation_class_idempotent.
+
+Theorem C18_operation_class_no_underscore : forall n, forallb (fun c => negb (is_us c)) (pascal n) = true.
+Proof. exact pascal_no_us. Qed.
+Print Assumptions C18_operation_class_no_underscore.
+
+(* a valid identifier exactly outside the F18-invalid-name shape (no letter/digit at all, or a digit first) *)
+Theorem C18_operation_class_identifier_partial : forall n, gql_name n = true -> all_us n = false ->
+  first_alnum_is_digit n = false -> py_identifier (pascal n) = true.
+Proof. exact pascal_identifier. Qed.
+Print Assumptions C18_operation_class_identifier_partial.
+
+Theorem C18_operation_class_identifier_refuted : exists a b, gql_name a = true /\ gql_name b = true /\
+  l2s (pascal a) = "" /\ l2s (pascal b) = "1x".
+Proof. exists (s2l "_"), (s2l "_1x"). vm_compute. auto. Qed.
+
+(* class names merge only for names that agree up to case and underscores ... *)
+Theorem C18_operation_class_merge_only_case_us : forall a b, pascal a = pascal b ->
+  map to_lower (filter is_alnum a) = map to_lower (filter is_alnum b).
+Proof. exact pascal_merge_only_case_us. Qed.
+Print Assumptions C18_operation_class_merge_only_case_us.
+
+(* ... but they do merge while the modules stay apart: finding F18-operation-class-merge *)
+Theorem C18_operation_classes_refuted : ~ C18_operation_classes_full.
+Proof.
+  intro H. apply (H (s2l "aB") (s2l "AB") eq_refl eq_refl); [vm_compute; discriminate | reflexivity].
+Qed.
+Print Assumptions C18_operation_classes_refuted.
+
+Example C18_operation_class_examples :
+  l2s (pascal (s2l "aB")) = "AB" /\ l2s (pascal (s2l "AB")) = "AB" /\
+  l2s (process_name op_flags18 (s2l "aB")) = "a_b" /\ l2s (process_name op_flags18 (s2l "AB")) = "ab" /\
+  l2s (pascal (s2l "get_HTTP_code2")) = "GetHTTPCode2" /\ l2s (pascal (s2l "__x__y")) = "XY" /\
+  gql_name (s2l "get_HTTP_code2") = true /\ all_us (s2l "get_HTTP_code2") = false /\
+  first_alnum_is_digit (s2l "get_HTTP_code2") = false.
 Proof. vm_compute. repeat split. Qed.
